@@ -500,13 +500,13 @@ Proof. destruct a, b; simpl; try reflexivity; try (destruct (Pos.lxor p p0); ref
 Lemma clmul_lxor_r a : forall b b', clmul a (N.lxor b b') = N.lxor (clmul a b) (clmul a b').
 Proof.
   intros b. induction b using N.binary_ind; intros b'.
-  - rewrite N.lxor_0_l. simpl. rewrite N.lxor_0_l. reflexivity.
+  - rewrite N.lxor_0_l. simpl. rewrite ?N.lxor_0_l. reflexivity.
   - destruct b' using N.binary_ind.
-    + rewrite !N.lxor_0_r. simpl. rewrite N.lxor_0_r. reflexivity.
+    + rewrite !N.lxor_0_r. simpl. rewrite ?N.lxor_0_r. reflexivity.
     + rewrite lxor_dd, !clmul_double, IHb. apply double_lxor.
     + rewrite lxor_ds, clmul_double, !clmul_succ_double, IHb, double_lxor. xor_ac.
   - destruct b' using N.binary_ind.
-    + rewrite !N.lxor_0_r. simpl. rewrite N.lxor_0_r. reflexivity.
+    + rewrite !N.lxor_0_r. simpl. rewrite ?N.lxor_0_r. reflexivity.
     + rewrite lxor_sd, clmul_double, !clmul_succ_double, IHb, double_lxor. xor_ac.
     + rewrite lxor_ss, clmul_double, !clmul_succ_double, IHb, double_lxor. xor_ac.
 Qed.
@@ -515,7 +515,7 @@ Lemma pmod_fuel_lxor n : forall a b, pmod_fuel n (N.lxor a b) = N.lxor (pmod_fue
 Proof.
   induction n; intros a b; cbn [pmod_fuel]; [reflexivity|].
   rewrite N.lxor_spec.
-  destruct (N.testbit a (128 + N.of_nat n)), (N.testbit b (128 + N.of_nat n)); cbn [xorb];
+  destruct (N.testbit a (128 + N.of_nat n)), (N.testbit b (128 + N.of_nat n)); cbv [Datatypes.xorb];
     rewrite <- IHn; f_equal; xor_ac.
 Qed.
 
